@@ -44,6 +44,10 @@ CLAIMED = {
             'exploration: held on ~1.6x10^4 probes per quick run (hundreds of triangulations incl. collinear triples, spherical alias, corners with a zero coordinate, base-value and default corners)',
             'interior interpolated values are only bounded (the triangulation is left open by the property); 1e-10 relative for barycentric rounding; two input classes are known findings (approx(0,0), DBL_MAX default corners)',
             'DESIGN.md section 4, C11'),
+    'C20': ('runtime monitoring: envelope / monotonicity / boundary-attainment monitors over depth profiles and away-from-ridge profiles of cooling models (oceanic half space, plate, constant-age plate; linear models; slab mass conserving and plate model), on the ASan+UBSan build',
+            'exploration: held on ~4x10^4 probes per quick run (ages from metres off the ridge axis to 300 Myr, both coordinate systems, all slab shapes of the C06 generator below 85 degrees dip)',
+            'an envelope, not an equality: a wrong profile that stays inside it and keeps the monotonicities passes (C05 covers the oceanic formulas); excursions bounded by the analytic truncation bound of the 100-term series are a known finding',
+            'DESIGN.md section 4, C20'),
 }
 
 PENDING_REASON = 'check not built yet (work in progress; see DESIGN.md section 9)'
